@@ -69,11 +69,10 @@ def run(eng, ctx):
                 t = e.term
                 ok = e.kind == "aug" and t[0] == "bin" and t[1] == "+" and _field_of(t[2]) == buf
                 src = t[3] if ok else None
-                recvs = [x for x in subterms(src)] if src is not None else []
                 is_recv = lambda x: isinstance(x, tuple) and x and x[0] == "call" and x[2][0] == "attr" and _field_of(x[2][1]) == sockf and x[2][2] == "recv"  # noqa: E731
-                direct = src is not None and is_recv(src)
-                via = src is not None and src[0] == "proj" and src[2] == 0 and src[1][0] == "call" and is_self_call(src[1], eng.dechunker.split(".")[-1])
-                ctx.check(ok and (direct or via), "C11.D1", f.qualname, norm(e.node), expected="buffer += recv() data (or the decoded part of dechunk(partial + data))", found=show(t)[:100], **loc)
+                alts = [leaf for _, leaf in leaves(src)] if src is not None else []
+                good = bool(alts) and all(is_recv(a) or (a[0] == "proj" and a[2] == 0 and a[1][0] == "call" and is_self_call(a[1], eng.dechunker.split(".")[-1])) for a in alts)
+                ctx.check(ok and good, "C11.D1", f.qualname, norm(e.node), expected="buffer += recv() data (or the decoded part of dechunk(partial + data))", found=show(t)[:100], **loc)
                 ctx.check(e.handler is None and not e.loops, "C11.D1", f.qualname, f"{norm(e.node)} on the success path", expected="not in an exception handler or loop", found="handler" if e.handler is not None else "loop", **loc)
             elif f.qualname == rd.qualname:
                 pass  # checked by D2
@@ -137,12 +136,18 @@ def run(eng, ctx):
         data = recvs[0].term
         wstores = [e for e in sv.effects if e.kind in ("store", "aug", "setitem", "delitem")]
         for e in wstores:
-            okg = all(any(c[0] == "cmp" and c[1] == "==" and not pol and c[3] == ("const", 0) and c[2][0] == "call" and c[2][2] == ("builtin", "len") and c[2][3] == (data,) for c, pol in conj) or
-                      any((c == data and pol) for c, pol in conj) for conj in e.dnf)
+            def nonempty(c, pol):
+                if c[0] == "cmp" and c[3] == ("const", 0) and c[2][0] == "call" and c[2][2] == ("builtin", "len") and c[2][3] == (data,):
+                    return (c[1] == "==" and not pol) or (c[1] in ("!=", ">") and pol)
+                if c[0] == "cmp" and c[1] == ">=" and c[3] == ("const", 1) and c[2][0] == "call" and c[2][3] == (data,):
+                    return pol
+                return c == data and pol
+
+            okg = all(any(nonempty(c, pol) for c, pol in conj) for conj in e.dnf)
             ctx.check(okg and e.handler is None, "C11.D4", rv.qualname, norm(e.node), expected="stores only after a non-empty recv, outside the exception handler", found=("in handler; " if e.handler is not None else "") + guard_text(e.guards)[:80], **eng.loc(rv, e.node))
         for e in sv.effects:
             if e.kind == "return":
-                empty = any(c[0] == "cmp" and c[1] == "==" and pol and c[3] == ("const", 0) for c, pol in e.guards) or any(c == data and not pol for c, pol in e.guards)
+                empty = any(c[0] == "cmp" and c[3] == ("const", 0) and ((c[1] == "==" and pol) or (c[1] == "!=" and not pol)) for c, pol in e.guards) or any(c == data and not pol for c, pol in e.guards)
                 if e.handler is not None or empty:
                     ctx.check(e.term == ("const", False), "C11.D4", rv.qualname, norm(e.node), expected="failure reported as False", found=show(e.term), **eng.loc(rv, e.node))
                 else:
@@ -189,7 +194,11 @@ def run(eng, ctx):
             # termination conditions: a break under empty read, a break under CRLF suffix
             brk = [st for k, st in info.get("ends", []) if k == "break"]
             crlf = any(any(c[0] == "cmp" and c[1] == "==" and pol and c[3] == ("const", b"\r\n") for c, pol in st.guards) for st in brk)
-            ctx.check(crlf and len(brk) >= 2, "C11.D5", rl.qualname, "termination", expected="break at CRLF and at an empty read", found=f"{len(brk)} break(s), CRLF test: {crlf}", **eng.loc(rl, info["node"]))
+            tst = info.get("test")
+            crlf_in_test = tst is not None and tst[0] == "cmp" and tst[1] == "!=" and tst[3] == ("const", b"\r\n") and tst[2][0] == "slice" and tst[2][1] == ("loop", lid, var)
+            empty_brk = any(any((c[0] == "cmp" and c[2][0] == "call" and c[2][2] == ("builtin", "len") and c[2][3] == (d,)) or c == d for c, pol in st.guards) for st in brk)
+            ctx.check((crlf or crlf_in_test) and empty_brk, "C11.D5", rl.qualname, "termination", expected="stops at CRLF (break or loop test) and at an empty read (break)",
+                      found=f"{len(brk)} break(s), CRLF break: {crlf}, CRLF in loop test: {crlf_in_test}, empty-read break: {empty_brk}", **eng.loc(rl, info["node"]))
         else:
             ctx.bad("C11.D5", rl.qualname, "return", expected="returns the accumulated line", found=", ".join(show(e.term)[:40] for e in rets), **eng.loc(rl, rl.node))
 
